@@ -33,11 +33,11 @@ type CallRecord struct {
 	Resume     flows.Resume
 	Trigger    flows.Trigger
 
-	Err         error
-	Panic       any
-	PanicStack  string
-	Budget      bool // virtual-clock budget exceeded
-	ClockReads  int64
+	Err        error
+	Panic      any
+	PanicStack string
+	Budget     bool // virtual-clock budget exceeded
+	ClockReads int64
 
 	StatusBefore  flows.SessionStatus
 	SessionBefore []byte
